@@ -477,7 +477,7 @@ NOT_APPLICABLE.update({
     "C21": "Doctor is ~1700 lines of path-based orchestration (open/verify/rebuild/vacuum through real files, Tantivy, mmap); no kernel of it carries the property, which is defined over crash-left whole files.",
     "C23": "Byte-identical output is a whole-pipeline property (zstd, Tantivy segment ids, wall-clock defaults); per-kernel determinism is trivially true of pure functions and says nothing about the file.",
     "C26": "The faulty use of the WAL sequence number as frame id (triplet cards, enrichment queue, instant index) is inside put_internal, which cannot be executed symbolically (zstd, extractors, regex, serde_json); the kernels around it use whatever id they are given. Recorded as an observation in DESIGN.md (section 2.7 item 6), not as a checked finding.",
-    "C27": "MemoriesTrack keeps its slot index in a HashMap<String, Vec<id>>; the harness (c27_temporal_2cards, kept as experimental) did not finish in 10 minutes even for 2 cards of one slot - hashbrown probing and SipHash over Strings are intractable for CBMC in this setup.",
+    "C27": "MemoriesTrack keeps its slot index in a HashMap<String, Vec<id>>; the harness (c27_temporal_2cards, kept as experimental) did not finish in 15 minutes even for 2 cards of one slot (also with SipHash replaced by a constant hash and per-loop unwind bounds, the recipe that made the C12 HashSet harnesses tractable) - hashbrown probing and SipHash over Strings are intractable for CBMC in this setup.",
     "C28": "'Same answers before/after reopen and after doctor' is decided by Tantivy snapshot/restore and index loading from real files; the two encodable round trips are already C13/C14 (vector index operations) and C15 (time index).",
     "C29": "The capsule stream framing sits on AES-GCM/Argon2 (aes-gcm, argon2 crates) behind the `encryption` feature; with the AEAD stubbed to an ideal oracle the remaining framing loop reads/writes through File handles with 1 MiB chunk buffers (symbolic-size allocations). Not attempted within the time available; no claim.",
     "C32": "Parser totality/semantics: probed in the design phase - with regex stubbed the parser compiles, but symex of TextTerm::from_word (trim/contains/to_ascii_lowercase over core's memchr loops) did not finish in 7 minutes for 4 tokens; tokens are heap Strings inside Vec<Token>/Box<Expr> (symbolic-shape containers, see DESIGN.md 8.2). The recursion-depth defect (parse_factor/parse_primary recurse once per NOT / '(' token: stack exhaustion on pathological input) is recorded as an observation, not a checked finding.",
